@@ -109,9 +109,19 @@ def _semantics(ctx, meth, direct, rule):
 
 
 def check(ctx):
-    _semantics(ctx, "child", True, "containment/child-semantics")
-    _semantics(ctx, "preauthChild", False, "containment/preauth-semantics")
+    with ctx.section("child"):
+        _semantics(ctx, "child", True, "containment/child-semantics")
+    with ctx.section("preauthChild"):
+        _semantics(ctx, "preauthChild", False, "containment/preauth-semantics")
+    with ctx.section("descendant"):
+        _descendant(ctx)
+    with ctx.section("static"):
+        _static(ctx)
+    with ctx.section("server"):
+        _server(ctx)
 
+
+def _descendant(ctx):
     # descendant: only child() per segment
     for cls in ("AbstractFilePath",):
         f = ctx.func(FP, cls + ".descendant")
@@ -139,9 +149,6 @@ def check(ctx):
     d = methods(cls).get("descendant")
     ok = d is None or all(isinstance(s, (ast.Expr, ast.Pass)) for s in d.body)
     ctx.check(ok, "containment/descendant-via-child", "twisted.python.filepath.FilePath.descendant", "FilePath overrides descendant() with an unchecked implementation")
-
-    _static(ctx)
-    _server(ctx)
 
 
 SANITISER = "self.child"
